@@ -544,4 +544,160 @@ theorem all_match (k : Rat) (L : Layout) (hk : 0 < k) : ∀ (rs : List Resolved)
       · exact (elt_match k L r hk hskip' (hsz r hr) _ e).2 (h _ ⟨r, hr, e⟩)
 
 
+/-! ### rotation: code table vs meaning, lifted through the resolver; fixed chains -/
+
+/-- the generated `Rdict` is the quarter-turn table on its keys (complete finite table) -/
+theorem rotTable_spec (k : Int) (M : Int × Int × Int × Int) (h : rotMatrix? k = some M) :
+    (k = 0 ∧ M = (1, 0, 0, 1)) ∨ (k = 90 ∧ M = (0, 1, -1, 0)) ∨ (k = 180 ∧ M = (-1, 0, 0, -1)) ∨
+    (k = -180 ∧ M = (-1, 0, 0, -1)) ∨ (k = -90 ∧ M = (0, -1, 1, 0)) := by
+  unfold rotMatrix? at h
+  simp only [Gen.rotTable, List.find?] at h
+  split at h
+  · simp at h; rename_i hk; simp at hk; left; exact ⟨hk.symm, h.symm⟩
+  · split at h
+    · simp at h; rename_i hk; simp at hk; right; left; exact ⟨hk.symm, h.symm⟩
+    · split at h
+      · simp at h; rename_i hk; simp at hk; right; right; left; exact ⟨hk.symm, h.symm⟩
+      · split at h
+        · simp at h; rename_i hk; simp at hk; right; right; right; left; exact ⟨hk.symm, h.symm⟩
+        · split at h
+          · simp at h; rename_i hk; simp at hk; right; right; right; right; exact ⟨hk.symm, h.symm⟩
+          · simp at h
+
+theorem normKey_quarter (norm : Bool) (n k : Int) (h : normKey norm n = k) :
+    (k = 0 → n % 90 = 0 ∧ (n / 90) % 4 = 0) ∧ (k = 90 → n % 90 = 0 ∧ (n / 90) % 4 = 1) ∧
+    (k = 180 → n % 90 = 0 ∧ (n / 90) % 4 = 2) ∧ (k = -180 → n % 90 = 0 ∧ (n / 90) % 4 = 2) ∧
+    (k = -90 → n % 90 = 0 ∧ (n / 90) % 4 = 3) := by
+  unfold normKey at h
+  cases norm <;> simp at h <;> omega
+
+
+theorem quarter_of (a : Rat) (q : Int) (hden : a.den = 1) (h : a.num % 90 = 0 ∧ (a.num / 90) % 4 = q) :
+    quarter a = some q := by
+  unfold quarter; simp [hden, h.1, h.2]
+
+/-- the rotation of the code (`Cpt.R`: generated `Rdict`, with or without normalisation of the angle) agrees with the
+    quarter-turn meaning wherever it applies -/
+theorem rotCode_rotExact (a : Rat) (v w : Rat × Rat) (h : rotCode a v = some w) : rotExact a v = some w := by
+  unfold rotCode at h
+  split at h
+  · rename_i hden
+    split at h
+    · rename_i aa b c d hM
+      have hq := normKey_quarter Gen.rotNormalise a.num _ rfl
+      injection h with h
+      rcases rotTable_spec _ _ hM with ⟨hk, hMe⟩ | ⟨hk, hMe⟩ | ⟨hk, hMe⟩ | ⟨hk, hMe⟩ | ⟨hk, hMe⟩
+      · have := quarter_of a 0 hden (hq.1 hk)
+        injection hMe with h1 h2; injection h2 with h2 h3; injection h3 with h3 h4
+        subst h1 h2 h3 h4
+        unfold rotExact; rw [this, ← h]; simp
+      · have := quarter_of a 1 hden (hq.2.1 hk)
+        injection hMe with h1 h2; injection h2 with h2 h3; injection h3 with h3 h4
+        subst h1 h2 h3 h4
+        unfold rotExact; rw [this, ← h]; simp
+      · have := quarter_of a 2 hden (hq.2.2.1 hk)
+        injection hMe with h1 h2; injection h2 with h2 h3; injection h3 with h3 h4
+        subst h1 h2 h3 h4
+        unfold rotExact; rw [this, ← h]; simp
+      · have := quarter_of a 2 hden (hq.2.2.2.1 hk)
+        injection hMe with h1 h2; injection h2 with h2 h3; injection h3 with h3 h4
+        subst h1 h2 h3 h4
+        unfold rotExact; rw [this, ← h]; simp
+      · have := quarter_of a 3 hden (hq.2.2.2.2 hk)
+        injection hMe with h1 h2; injection h2 with h2 h3; injection h3 with h3 h4
+        subst h1 h2 h3 h4
+        unfold rotExact; rw [this, ← h]; simp
+    · cases h
+  · cases h
+
+
+theorem mapE_mono {α β : Type} {f g : α → Except String β} (h : ∀ a b, f a = .ok b → g a = .ok b) :
+    ∀ (l : List α) (r : List β), mapE f l = .ok r → mapE g l = .ok r
+  | [], r, hr => by simpa [mapE] using hr
+  | a :: l, r, hr => by
+    unfold mapE at hr ⊢
+    split at hr
+    · cases hr
+    · rename_i b hb
+      split at hr
+      · cases hr
+      · rename_i bs hbs
+        rw [h a b hb, mapE_mono h l bs hbs]
+        exact hr
+
+theorem pinCoord_agrees (p : PreResolved) (pin : PinRow) (v : Rat × Rat)
+    (h : pinCoord rotCode p pin = .ok v) : pinCoord rotExact p pin = .ok v := by
+  unfold pinCoord at h ⊢
+  split at h
+  · cases h
+  · rename_i s hs
+    split at h
+    · rename_i w hw
+      rw [rotCode_rotExact _ _ _ hw]; exact h
+    · cases h
+
+/-- **lifted through the resolver**: whenever the model of the code resolves an element (its angle hits `Cpt.R`'s table),
+    resolving it with the rotation the hint *means* gives the same element -/
+theorem resolveWith_agrees (k : Rat) (all : List String) (e : Elt) (r : Resolved)
+    (h : resolveWith rotCode k all e = .ok r) : resolveWith rotExact k all e = .ok r := by
+  unfold resolveWith at h ⊢
+  split at h
+  · cases h
+  · rename_i p hp
+    split at h
+    · rename_i hi; simp only [hi, if_true]; exact h
+    · rename_i hi
+      simp only [hi]
+      split at h
+      · cases h
+      · rename_i tc htc
+        rw [mapE_mono (pinCoord_agrees p) _ _ htc]; exact h
+
+theorem resolveAll_agrees (n : Netlist) (x : List String × List Resolved)
+    (h : resolveAll rotCode n = .ok x) : resolveAll rotExact n = .ok x := by
+  unfold resolveAll at h ⊢
+  split at h
+  · cases h
+  · rename_i elts he
+    split at h
+    · cases h
+    · rename_i rs hrs
+      rw [mapE_mono (fun e r => resolveWith_agrees n.spacing (schNodes elts) e r) _ _ hrs]; exact h
+
+
+theorem one_port_item_exact (k : Rat) (r : Resolved) (a b : String) (ta tb : Rat × Rat) (hskip : r.skip = false)
+    (hp : r.pins = [(a, ta), (b, tb)])
+    (ha : rotExact r.angle (-1/2, 0) = some ta) (hb : rotExact r.angle (1/2, 0) = some tb) :
+    ∃ d, dirOfAngle r.angle = some d ∧ r.item k = some (.hint ⟨a, b, d, r.size * k, !r.stretch⟩) := by
+  unfold rotExact at ha hb
+  unfold dirOfAngle Resolved.item
+  simp only [hskip, hp, Bool.false_eq_true, if_false]
+  split at ha
+  all_goals (rename_i hq; rw [hq] at hb; simp only at hb)
+  · injection ha with ha; injection hb with hb; subst ha; subst hb
+    exact ⟨.right, rfl, by norm_num⟩
+  · injection ha with ha; injection hb with hb; subst ha; subst hb
+    exact ⟨.up, rfl, by norm_num⟩
+  · injection ha with ha; injection hb with hb; subst ha; subst hb
+    exact ⟨.left, rfl, by norm_num⟩
+  · injection ha with ha; injection hb with hb; subst ha; subst hb
+    exact ⟨.down, rfl, by norm_num⟩
+  · cases ha
+
+/-! ### chains of fixed edges -/
+
+theorem lp_exact_chain (edges : List WEdge) (l : List String) (hnd : l.Nodup) (ht : RevTopo edges l) :
+    ∀ (path : List WEdge) (s : String), PathFrom s path →
+      (∀ e ∈ path, e ∈ edges ∧ e.src ∈ l ∧ e.dst ∈ l ∧ 0 ≤ e.size ∧ ∀ e' ∈ edges, e'.dst = e.dst → e' = e) →
+      lp edges l (pathEnd s path) - lp edges l s = (path.map (·.size)).sum
+  | [], s, _, _ => by simp [pathEnd]
+  | e :: rest, s, hp, hall => by
+    obtain ⟨he, hs, hd, hsz, hu⟩ := hall e (by simp)
+    have h1 := lp_exact_of_unique edges l hnd ht e he hs hd hsz hu
+    have h2 := lp_exact_chain edges l hnd ht rest e.dst hp.2 (fun x hx => hall x (List.mem_cons_of_mem _ hx))
+    simp only [pathEnd, List.map_cons, List.sum_cons]
+    rw [← hp.1]
+    linarith
+
+
 end Lcapy.Layout
